@@ -162,6 +162,7 @@ class Session(object):
         self.i = seams.ISeam(self.pg.ou, env.get("I", "native")).install()
         self.loss = {}
         self.lossdef = {}
+        self.loss_x0 = {}      # a loss object keeps the initial values it was last given (costIV & co.)
         self.interleaves = 0
 
     def close(self):
@@ -298,6 +299,7 @@ def loss_new(sess, op, step, out, stats, log):
         return
     sess.loss[op["id"]] = obj
     sess.lossdef[op["id"]] = op
+    sess.loss_x0[op["id"]] = [float(v) for v in sess.x0]
     log.append(["loss_new", step, op["cls"], states])
 
 
@@ -305,7 +307,7 @@ def full_theta(sess, d, free):
     """Map the free-variable vector of a loss object to (theta_full, x0_full)."""
     ref = sess.ref
     theta = list(sess.model_theta)
-    x0 = list(sess.x0)
+    x0 = list(sess.loss_x0.get(d["id"], sess.x0))
     tp = d.get("target_param")
     ts = d.get("target_state")
     free = list(free)
@@ -397,10 +399,10 @@ def loss_call(sess, op, step, out, stats, log):
     except Exception as e:
         out.append(core.crash_failure("C06", e, step, "%s.%s" % (d["cls"], what)))
         return
-    # the loss object wrote its parameters into the shared model
-    _sync_model_theta(sess, d, free)
     stats["cost_calls"] = stats.get("cost_calls", 0) + 1
     want, yhat = ref_cost(sess, d, free)
+    # the loss object wrote its parameters into the shared model (and keeps the initial values)
+    _sync_model_theta(sess, d, free)
     if what == "residual":
         y = np.array(d["y"], float).reshape(yhat.shape)
         w = np.ones_like(y)
@@ -421,7 +423,8 @@ def loss_call(sess, op, step, out, stats, log):
     if not (abs(got - want) <= tol):
         out.append(fail("C06.%s" % what, step, "%s %s(%s) = %r, the stated loss of the true trajectory is %r (|diff| %.3g > tol %.3g); states %s" % (
             d["cls"], what, free, got, want, abs(got - want), tol, d["states"])))
-    if d["cls"] == "SquareLoss" and op.get("at_truth") and d.get("noise_free"):
+    same_x0 = [float(v) for v in sess.loss_x0.get(d["id"], sess.x0)] == [float(v) for v in sess.x0]
+    if d["cls"] == "SquareLoss" and op.get("at_truth") and d.get("noise_free") and same_x0 and what == "cost":
         sy = float(np.sum(np.array(d["y"], float) ** 2))
         if not (got < 1e-10 * max(sy, 1e-300) + 1e-14):
             out.append(fail("C06.zero", step, "square-loss cost at the data-generating parameters is %r (sum y^2 = %r)" % (got, sy)))
@@ -448,14 +451,19 @@ def _bcast(v, shape):
 
 
 def _sync_model_theta(sess, d, free):
-    theta, _ = full_theta(sess, d, free)
+    """After a call the loss object has written its parameters into the shared model and keeps
+    the initial values it was given."""
+    theta, x0 = full_theta(sess, d, free)
     sess.model_theta = list(theta)
+    sess.loss_x0[d["id"]] = list(x0)
 
 
-def richardson(f, x, rel=1e-4):
-    """Gradient by Richardson-extrapolated central differences."""
+def richardson(f, x, rel=1e-4, spread=False):
+    """Gradient by Richardson-extrapolated central differences.  With spread=True also return
+    |d(h/2) - d(h)| per component: an empirical bound on truncation error plus evaluation noise."""
     x = np.array(x, float)
     g = np.zeros(len(x))
+    sp_ = np.zeros(len(x))
     for j in range(len(x)):
         h = rel * max(1.0, abs(x[j]))
         e = np.zeros(len(x))
@@ -464,7 +472,8 @@ def richardson(f, x, rel=1e-4):
         e[j] = h / 2
         d2 = (f(x + e) - f(x - e)) / h
         g[j] = (4 * d2 - d1) / 3.0
-    return g
+        sp_[j] = abs(d2 - d1)
+    return (g, sp_) if spread else g
 
 
 def grad_call(sess, op, step, out, stats, log):
@@ -517,7 +526,10 @@ def grad_call(sess, op, step, out, stats, log):
         else:
             fcost = (lambda v: float(obj.costIV(np.array(v, float)))) if which == "sensitivityIV" else \
                 (lambda v: float(obj.cost(np.array(v, float))))
-            want = richardson(fcost, free)
+            want, fd_spread = richardson(fcost, free, spread=True)
+            # evaluation noise of cost (solver tolerance) divided by the step, plus 1e-6 of the gradient scale
+            fd_spread = fd_spread + 1e-12 * (1.0 + abs(fcost(free))) / (1e-4 * np.maximum(1.0, np.abs(free))) \
+                + 1e-6 * np.abs(want).max()
             cost_scale = np.abs(want).max() + abs(fcost(free)) * 1e-3 + 1e-6
     except core.RunTimeout:
         raise
@@ -526,10 +538,16 @@ def grad_call(sess, op, step, out, stats, log):
         return
     finally:
         _sync_model_theta(sess, d, list(free))
+    noise = 0.0
+    if which != "jac":
+        try:
+            noise = grad_noise_floor(sess, d, list(free), which == "sensitivityIV") + 3.0 * fd_spread
+        except refsolve.RefSolveError:
+            noise = 3.0 * fd_spread
     if got.shape != want.shape:
         out.append(fail("C07.shape.%s" % which, step, "%s returned shape %s, %d free variables" % (label, got.shape, len(free))))
         return
-    tol = 2e-4 * np.maximum(np.abs(got), np.abs(want)) + 1e-5 * cost_scale
+    tol = 2e-4 * np.maximum(np.abs(got), np.abs(want)) + (noise if which != "jac" else 1e-5 * cost_scale) + 1e-10
     if np.any(np.abs(got - want) > tol) or not np.all(np.isfinite(got)):
         k = int(np.argmax(np.abs(got - want) - tol))
         perm = ""
@@ -538,6 +556,49 @@ def grad_call(sess, op, step, out, stats, log):
         out.append(fail("C07.grad.%s" % which, step, "%s at %s: %s, derivative of cost is %s%s" % (
             label, free.tolist(), got.tolist() if got.ndim == 1 else "entry %d = %r" % (k, float(got.ravel()[k])),
             want.tolist() if want.ndim == 1 else "%r" % float(want.ravel()[k]), perm)))
+
+
+def loss_curvature(cls, y, yhat, w, spread):
+    """|d2 loss / d yhat2| per observation (how strongly a trajectory error moves dloss/dyhat)."""
+    if cls == "SquareLoss":
+        return 2.0 * w * w
+    if cls == "NormalLoss":
+        return w * w / (spread ** 2)
+    if cls == "PoissonLoss":
+        return np.abs(y / yhat ** 2) + 1.0 / np.maximum(yhat, 1e-12)
+    if cls == "GammaLoss":
+        a = spread
+        return np.abs(-a / yhat ** 2 + 2 * a * y / yhat ** 3) + a / yhat ** 2
+    if cls == "NegBinomLoss":
+        k = spread
+        return np.abs(-k / (k + yhat) ** 2 + y / yhat ** 2 - y / (k + yhat) ** 2) + 1.0 / np.maximum(yhat, 1e-12)
+    raise ValueError(cls)
+
+
+def grad_noise_floor(sess, d, free, with_iv):
+    """Absolute error the analytic gradient may legitimately carry: the trajectory is only known to
+    solver tolerance (taken as 1e-7 (1+|yhat|), generous for rtol=atol=1e-10), and that error enters
+    dloss/dyhat through the curvature of the loss and is multiplied by the sensitivities."""
+    ref = sess.ref
+    theta, x0 = full_theta(sess, d, free)
+    X, S, S0 = refsolve.solve_sens(ref, theta, x0, sess.t0, d["obs_t"], with_iv=with_iv)
+    idx = [ref.state_names.index(s) for s in d["states"]]
+    T = len(d["obs_t"])
+    yhat = X[:, idx]
+    y = np.array(d["y"], float).reshape(yhat.shape)
+    w = np.ones_like(yhat) if d.get("weights") is None else _bcast(d["weights"], yhat.shape)
+    default_spread = {"NormalLoss": 1.0, "GammaLoss": 2.0, "NegBinomLoss": 1.0}.get(d["cls"], 1.0)
+    sp_ = np.full(yhat.shape, default_spread) if d.get("spread") is None else _bcast(d["spread"], yhat.shape)
+    kappa = loss_curvature(d["cls"], y, yhat, w, sp_)
+    delta = 1e-7 * (1.0 + np.abs(yhat))
+    tp = d.get("target_param")
+    pidx = list(range(ref.p)) if tp is None else [ref.param_names.index(nm) for nm in tp]
+    cols = [S[:, idx, k] for k in pidx]
+    if with_iv:
+        ts = d.get("target_state")
+        sidx = list(range(ref.n)) if ts is None else [ref.state_names.index(nm) for nm in ts]
+        cols += [S0[:, idx, k] for k in sidx]
+    return np.array([float(np.sum(kappa * delta * np.abs(w * c))) for c in cols])
 
 
 def richardson_vec(f, x, j, rel=1e-4):
@@ -865,3 +926,164 @@ def gen_sens_case(S, tier, prop):
         return {"engine": "solver", "problem": name, "model": model, "theta": theta, "x0": x0, "t0": t0, "env": env,
                 "ops": ops, "batch": batch}
     raise core.HarnessError("no sens case")
+
+
+LOSSES = ["SquareLoss", "NormalLoss", "PoissonLoss", "GammaLoss", "NegBinomLoss"]
+
+
+def gen_loss_def(rng, lid, ref, name, theta_true, x0, t0, tmax, box, pos, classes=None, allow_targets=True,
+                 allow_weights=True, force_noise_free=None):
+    """One loss-object definition (JSON) with its data."""
+    classes = classes or LOSSES
+    cls = rng.choice(classes)
+    if cls in ("PoissonLoss", "GammaLoss", "NegBinomLoss") and not pos:
+        cls = rng.choice(["SquareLoss", "NormalLoss"])
+    n, p = ref.n, ref.p
+    obs_t = gen_times(rng, t0, tmax, k=rng.randint(3, 12), uniform=rng.random() < 0.3)
+    ns = rng.choice([1, 1, 2, 2, 3])
+    ns = min(ns, n)
+    states = rng.sample(ref.state_names, ns)           # any order
+    X = safe_reference(ref, theta_true, x0, t0, obs_t)
+    if X is None:
+        return None
+    idx = [ref.state_names.index(s) for s in states]
+    yhat = X[:, idx]
+    if cls in ("PoissonLoss", "GammaLoss", "NegBinomLoss") and yhat.min() < 1e-3:
+        return None
+    noise_free = force_noise_free if force_noise_free is not None else (cls in ("SquareLoss", "NormalLoss") and rng.random() < 0.5)
+    if noise_free:
+        y = yhat.copy()
+    else:
+        pert = np.array([[rng.uniform(-0.15, 0.15) for _ in idx] for _ in obs_t])
+        y = yhat * (1.0 + pert)
+    if cls in ("PoissonLoss", "NegBinomLoss"):
+        y = np.rint(y * (1.0 if yhat.max() > 3 else 1.0))
+        y = np.maximum(y, 0.0)
+    if cls == "GammaLoss":
+        y = np.maximum(y, 1e-3)
+    d = {"op": "loss_new", "id": lid, "cls": cls, "states": states, "obs_t": obs_t, "y": y.tolist(),
+         "noise_free": bool(noise_free and cls in ("SquareLoss", "NormalLoss"))}
+    T = len(obs_t)
+    if ns == 1:
+        d["y_flat"] = rng.random() < 0.7
+        d["state_as_str"] = rng.random() < 0.5
+    # spread
+    if cls in ("NormalLoss", "GammaLoss", "NegBinomLoss") and rng.random() < 0.7:
+        if rng.random() < 0.5:
+            d["spread"] = round(rng.uniform(0.5, 3.0), 3)
+        else:
+            if ns == 1:
+                d["spread"] = [round(rng.uniform(0.5, 3.0), 3) for _ in range(T)]
+            else:
+                d["spread"] = [[round(rng.uniform(0.5, 3.0), 3) for _ in range(ns)] for _ in range(T)]
+    # weights: non-unit only where the cost uses them
+    if allow_weights and cls in ("SquareLoss", "NormalLoss") and rng.random() < 0.5:
+        r = rng.random()
+        if r < 0.3:
+            d["weights"] = round(rng.uniform(0.3, 2.0), 3)
+        elif ns == 1:
+            d["weights"] = [round(rng.uniform(0.3, 2.0), 3) for _ in range(T)]
+        elif r < 0.65 and ns != T:
+            d["weights"] = [round(rng.uniform(0.3, 2.0), 3) for _ in range(ns)]
+        else:
+            d["weights"] = [[round(rng.uniform(0.3, 2.0), 3) for _ in range(ns)] for _ in range(T)]
+    if allow_targets and p >= 2 and rng.random() < 0.4:
+        d["target_param"] = rng.sample(ref.param_names, rng.randint(1, p - 1 if rng.random() < 0.7 else p))
+    if allow_targets and rng.random() < 0.3:
+        d["target_state"] = rng.sample(ref.state_names, rng.randint(1, n))
+    if d.get("target_param") is not None and d.get("target_state") is None and len(d["target_param"]) + n == p:
+        # PyGOM dispatches costIV input on its length; (targets + all states) == (all parameters) is
+        # read as a user error.  Ambiguity of the API, outside the properties: not generated.
+        d["target_state"] = list(ref.state_names)
+    ntp = p if d.get("target_param") is None else len(d["target_param"])
+    names = ref.param_names if d.get("target_param") is None else d["target_param"]
+    d["theta0"] = [rand_in_box(rng, box[ref.param_names.index(nm)]) for nm in names]
+    return d
+
+
+def rand_in_box(rng, b, margin=0.1):
+    lo, hi = b
+    return round(rng.uniform(lo + margin * (hi - lo), hi - margin * (hi - lo)), 4)
+
+
+def free_vector(rng, ref, d, box, x0, truth=None, with_iv=False):
+    """A free-variable vector for loss definition d: targeted parameters (in the supplied order), then,
+    if with_iv, the targeted initial values."""
+    names = ref.param_names if d.get("target_param") is None else d["target_param"]
+    if truth is not None:
+        v = [truth[ref.param_names.index(nm)] for nm in names]
+    else:
+        v = [rand_in_box(rng, box[ref.param_names.index(nm)]) for nm in names]
+    if with_iv:
+        snames = ref.state_names if d.get("target_state") is None else d["target_state"]
+        for nm in snames:
+            base = x0[ref.state_names.index(nm)]
+            v.append(base if truth is not None and rng.random() < 0.5 else round(base * rng.uniform(0.8, 1.2) + rng.uniform(0.0, 0.02), 5))
+    return v
+
+
+def gen_owner_op(rng, ref, d, box, x0, t0, tmax):
+    r = rng.random()
+    if r < 0.6:
+        if d.get("target_param") is not None:
+            names = list(d["target_param"])            # only the targeted ones (see DESIGN C06)
+            return {"op": "owner", "kind": "scramble", "names": names,
+                    "values": [rand_in_box(rng, box[ref.param_names.index(nm)]) for nm in names]}
+        return {"op": "owner", "kind": "scramble", "values": [rand_in_box(rng, b) for b in box]}
+    if r < 0.8:
+        return {"op": "owner", "kind": "integrate", "x0": [round(v * rng.uniform(0.5, 1.5), 4) for v in x0],
+                "grid": gen_times(rng, t0, tmax, k=3)}
+    return {"op": "owner", "kind": "evaluate", "x": [round(abs(v) + 0.1, 4) for v in x0], "t": t0}
+
+
+def gen_loss_case(S, tier, prop, kinds, classes=None, allow_targets=True, nloss=None):
+    """kinds: which calls to generate: subset of {'cost','costIV','residual','sensitivity','gradient',
+    'sensitivityIV','jac','jtj','hessian'}"""
+    rng = S("gen")
+    srng = S("sched")
+    for _ in range(100):
+        need_pos = classes is None or any(c in ("PoissonLoss", "GammaLoss", "NegBinomLoss") for c in (classes or LOSSES))
+        name, model, theta, x0, t0, tmax, box, pos = pick_problem(rng, random_frac=0.25,
+                                                                   positive=True if (need_pos and rng.random() < 0.7) else None)
+        ref = RefModel(model, insertion_order(model))
+        if name == "random":
+            box = [[max(0.05, th * 0.5), th * 1.6] for th in theta]
+        tm = min(tmax, 10.0 if name != "SIR" else 30.0)
+        defs = []
+        for li in range(nloss or rng.choice([1, 1, 2])):
+            # a second loss object on the same model always drives all parameters
+            d = gen_loss_def(rng, "L%d" % (li + 1), ref, name, theta, x0, t0, tm, box, pos, classes=classes,
+                             allow_targets=allow_targets and li == 0)
+            if d is None:
+                break
+            d["prop"] = prop
+            defs.append(d)
+        else:
+            env, batch = env_for(S, tier)
+            ops = list(defs)
+            calls = []
+            for d in defs:
+                for _k in range(srng.randint(1, 3)):
+                    kind = srng.choice(kinds)
+                    at_truth = srng.random() < 0.3
+                    iv = kind in ("costIV", "sensitivityIV")
+                    free = free_vector(srng, ref, d, box, x0, truth=theta if at_truth else None, with_iv=iv)
+                    if kind in ("cost", "costIV", "residual"):
+                        calls.append({"op": "cost", "id": d["id"], "what": kind, "free": free,
+                                      "at_truth": bool(at_truth and d.get("target_param") is None and not iv)})
+                    elif kind in ("sensitivity", "gradient", "sensitivityIV", "jac"):
+                        calls.append({"op": "grad", "id": d["id"], "which": kind, "free": free,
+                                      "method": srng.choice([None, None, "lsoda", "vode", "dopri5"]) if kind != "gradient" else None})
+                    else:
+                        calls.append({"op": "curv", "id": d["id"], "which": kind, "free": free})
+            srng.shuffle(calls)
+            sched = []
+            for c in calls:
+                if srng.random() < 0.4:
+                    dd = [d for d in defs if d["id"] == c["id"]][0]
+                    sched.append(gen_owner_op(srng, ref, dd, box, x0, t0, tm))
+                    batch = "fault_injecting"
+                sched.append(c)
+            return {"engine": "solver", "problem": name, "model": model, "theta": theta, "x0": x0, "t0": t0,
+                    "env": env, "ops": ops + sched, "batch": batch, "box": box}
+    raise core.HarnessError("no loss case")
